@@ -269,7 +269,9 @@ class Term(Node):
         return self.get_sql(DEFAULT_SQL_CONTEXT)
 
     def __hash__(self) -> int:
-        ctx = DEFAULT_SQL_CONTEXT.copy(with_alias=True)
+        # Terms are de-duplicated through sets (fields_, tables_) while == builds a criterion, so the hash
+        # must tell apart everything that makes two terms different, including the table a field belongs to.
+        ctx = DEFAULT_SQL_CONTEXT.copy(with_alias=True, with_namespace=True)
         return hash(self.get_sql(ctx))
 
     def get_sql(self, ctx: SqlContext) -> str:
@@ -354,6 +356,10 @@ class Negative(Term):
         super().__init__()
         self.term = term
 
+    def nodes_(self) -> Iterator[NodeT]:
+        yield self  # type:ignore[misc]
+        yield from self.term.nodes_()
+
     @property
     def is_aggregate(self) -> bool | None:  # type:ignore[override]
         return self.term.is_aggregate
@@ -398,6 +404,11 @@ class ValueWrapper(Term):
         super().__init__(alias)
         self.value = value
         self.allow_parametrize = allow_parametrize
+
+    def nodes_(self) -> Iterator[NodeT]:
+        yield self  # type:ignore[misc]
+        if isinstance(self.value, Node):
+            yield from self.value.nodes_()
 
     @builder
     def replace_table(  # type:ignore[return]
@@ -559,6 +570,10 @@ class Values(Term):
     def __init__(self, field: str | "Field") -> None:
         super().__init__(None)
         self.field = Field(field) if not isinstance(field, Field) else field
+
+    def nodes_(self) -> Iterator[NodeT]:
+        yield self  # type:ignore[misc]
+        yield from self.field.nodes_()
 
     @builder
     def replace_table(  # type:ignore[return]
@@ -1518,6 +1533,11 @@ class AggregateFunction(Function):
         self._filters: list = []
         self._include_filter = False
 
+    def nodes_(self) -> Iterator[NodeT]:
+        yield from super().nodes_()
+        for criterion in self._filters:
+            yield from criterion.nodes_()
+
     @builder
     def filter(self, *filters: Any) -> AnalyticFunction:  # type:ignore[return]
         self._include_filter = True
@@ -1569,6 +1589,14 @@ class AnalyticFunction(AggregateFunction):
         self._orderbys: list[tuple] = []
         self._include_filter = False
         self._include_over = False
+
+    def nodes_(self) -> Iterator[NodeT]:
+        yield from super().nodes_()
+        for term in self._partition:
+            if isinstance(term, Node):
+                yield from term.nodes_()
+        for term, _ in self._orderbys:
+            yield from term.nodes_()
 
     @builder
     def over(self, *terms: Any) -> "Self":  # type:ignore[return]
@@ -1869,6 +1897,10 @@ class AtTimezone(Term):
         self.field = Field(field) if not isinstance(field, Field) else field
         self.zone = zone
         self.interval = interval
+
+    def nodes_(self) -> Iterator[NodeT]:
+        yield self  # type:ignore[misc]
+        yield from self.field.nodes_()
 
     @builder
     def replace_table(  # type:ignore[return]
